@@ -8,6 +8,7 @@ Expression      (e op…)
 Rule            (r pred (pred…) (expr…))
 -/
 import BiscuitModel.Model.Authorizer
+import BiscuitModel.Model.Unmarshal
 import BiscuitModel.Driver.Sexp
 
 namespace Biscuit.Driver
@@ -228,5 +229,57 @@ def encAuthOut : AuthOut → Option String
   | .queryErr e => some ("qerr:" ++ encRunErr (some e))
   | .saved true => some "saved"
   | .saved false => some "refused"
+
+/-! ### printing content in the input syntax (lists in their given order) -/
+
+def encValRaw : Val → String
+  | .atom a => encAtom a
+  | .set l => "(set" ++ String.join (l.map fun a => " " ++ encAtom a) ++ ")"
+
+def encTermSx : Term Val → String
+  | .var n => "(v " ++ encodeHex n ++ ")"
+  | .const v => encValRaw v
+
+def encPredSx (p : Pred Val) : String :=
+  "(p " ++ encodeHex p.name ++ String.join (p.terms.map fun t => " " ++ encTermSx t) ++ ")"
+
+def encFactRaw (f : Fact Val) : String :=
+  "(f " ++ encodeHex f.name ++ String.join (f.args.map fun t => " " ++ encValRaw t) ++ ")"
+
+def encUn : UnOp → String
+  | .negate => "neg" | .parens => "par" | .length => "len"
+
+def encBin : BinOp → String
+  | .lt => "lt" | .le => "le" | .gt => "gt" | .ge => "ge" | .eq => "eq" | .contains => "contains"
+  | .pfx => "prefix" | .sfx => "suffix" | .regex => "regex" | .add => "add" | .sub => "sub"
+  | .mul => "mul" | .div => "div" | .and => "and" | .or => "or" | .intersection => "intersection"
+  | .union => "union"
+
+def encOpSx : Op → String
+  | .value t => encTermSx t
+  | .unary u => "(u " ++ encUn u ++ ")"
+  | .binary b => "(bin " ++ encBin b ++ ")"
+
+def encExprSx (e : Expr) : String := "(e" ++ String.join (e.map fun o => " " ++ encOpSx o) ++ ")"
+
+def spaced (l : List String) : String := " ".intercalate l
+
+def encRuleSx (r : DRule) : String :=
+  "(r " ++ encPredSx r.head ++ " (" ++ spaced (r.body.map encPredSx) ++ ") (" ++ spaced (r.exprs.map encExprSx) ++ "))"
+
+def tagged (tag : String) (items : List String) : String :=
+  if items.isEmpty then "(" ++ tag ++ ")" else "(" ++ tag ++ " " ++ spaced items ++ ")"
+
+def encCheckSx (c : Check) : String := tagged "check" (c.queries.map encRuleSx)
+
+def encBlockSx (b : Block) : String :=
+  "(block " ++ tagged "facts" (b.facts.map encFactRaw) ++ " " ++ tagged "rules" (b.rules.map encRuleSx) ++ " " ++
+    tagged "checks" (b.checks.map encCheckSx) ++ ")"
+
+/-- Which gate rejects first on ill-formed bytes depends on protobuf-go's parsing details;
+the protocol compares accept / reject / reject nokey. -/
+def encReject : Reject → String
+  | .noKey => "reject nokey"
+  | _ => "reject"
 
 end Biscuit.Driver
